@@ -284,3 +284,17 @@ func hdrString(h http.Header) string {
 	}
 	return "{" + s + "}"
 }
+
+// panicSite returns the innermost vanguard function on a panic stack.
+func panicSite(stack string) string {
+	for _, line := range strings.Split(stack, "\n") {
+		if strings.HasPrefix(line, "connectrpc.com/vanguard.") {
+			fn := strings.TrimPrefix(line, "connectrpc.com/vanguard.")
+			if i := strings.LastIndex(fn, "("); i > 0 {
+				fn = fn[:i]
+			}
+			return fn
+		}
+	}
+	return "unknown"
+}
